@@ -61,6 +61,10 @@ EXPLANATION += (
     ' Round 6: a selection call receives parents listed from the very tree it is given (R-SAMEVAL/tree-and-parents).'
 )
 
+EXPLANATION += (
+    ' Round 7: per-level options written for the full taxonomy are not rejected for naming a dropped level (R-GUARD/lookup-superset-tolerated).'
+)
+
 RULE_TEXT = (
     "one obligation per consumer of the tree, per reducer call, per "
     "drop_level(<config>) call site, per flatten rebinding")
@@ -84,6 +88,7 @@ def check(ctx):
     check_lists_consulted_follow_tree(ctx)
     check_stats_through_tree(ctx)
     check_tree_and_parents_agree(ctx)
+    check_lookup_superset_tolerated(ctx)
     # the level that was dropped is filled in from the finer assignment by
     # the parent table of *that* level (shared with C01)
     from .C01 import check_backfill
@@ -545,3 +550,58 @@ def check_tree_and_parents_agree(ctx):
     if n < 1:
         raise AnalysisError('no call handing on both a tree and a parent '
                             'list found in marker_cache_v2')
+
+
+def check_lookup_superset_tolerated(ctx):
+    """per-level options are written for the full taxonomy and handed on
+    unchanged when a level is dropped or the tree flattened: the
+    bootstrap-factor table then names levels the run's tree no longer
+    has.  Its validation may complain about a level of the tree that the
+    table lacks, or about a bad value -- not about a key that is not a
+    level of the tree, or a run with a level dropped is refused where the
+    run on the reduced taxonomy is accepted."""
+    from ..core.guards import facts_at
+    from ..core.slicing import backward_slice
+    db = ctx.db
+    rule = 'R-GUARD/lookup-superset-tolerated'
+    fi = db.fn('type_assignment.utils:validate_bootstrap_factor_lookup')
+    ctx.touch(fi)
+    cfg = cfg_of(fi)
+    rd = rd_of(fi)
+    ex = Expander(fi)
+    n_sites = 0
+    bad = None
+    for n in cfg.nodes:
+        if n.id not in rd.live or n.ast is None:
+            continue
+        st = n.ast
+        complaint = isinstance(st, ast.Raise) or (
+            isinstance(st, ast.AugAssign) and isinstance(
+                st.target, ast.Name))
+        if not complaint:
+            continue
+        n_sites += 1
+        for (g, test, truth) in facts_at(cfg, rd, n.id):
+            if not (isinstance(test, ast.Compare) and isinstance(
+                    test.ops[0], ast.In) and not truth):
+                continue
+            left = ex.expand(test.left, g.id)
+            # a key of the table ...
+            key_of_lookup = any(
+                x[0] == 'iterelem' and T.contains(
+                    x, ('param', 'bootstrap_factor_lookup'))
+                for x in T.subterms(left))
+            # ... tested against something made from the tree
+            sl = backward_slice(fi, test.comparators[0], g.id)
+            if key_of_lookup and 'taxonomy_tree' in sl.params:
+                bad = (st, test)
+    ok = bad is None and n_sites > 0
+    ctx.ob(rule, 'validate_bootstrap_factor_lookup', fi.loc(
+        bad[0] if bad else None), ok,
+           'the table is only required to cover the tree, not to be '
+           'limited to it' if ok else
+           f'a complaint is raised under `{unparse(bad[1])[:60]}` being '
+           'false: a key of the table that is not a level of the run\'s '
+           'tree is rejected, which refuses every run that drops a level '
+           'or flattens while its per-level table is written for the full '
+           'taxonomy')
